@@ -20,7 +20,7 @@ INFO = {
     "outside": ["crash = process death between Python-level file operations or inside a write(); no fsync semantics", "kconfgen formats docs / report / cdep_tree (cdep_tree = sync_deps, see C12)"],
     "stubs": ["memfs behind esp_kconfiglib.core and kconfgen.core (open, os, os.path, tempfile.NamedTemporaryFile, shutil.copyfile)", "kconfgen.install_exception_reporting replaced by a no-op"],
 }
-BUDGET = {"quick": 240, "thorough": 1100}
+BUDGET = {"quick": 240, "thorough": 800}
 
 FORMATS = ["config", "header", "cmake", "json", "json_menus", "savedefconfig"]
 
